@@ -104,7 +104,9 @@ impl<'a> SdesChunk<'a> {
                 ret.items.push(item);
             }
 
-            while offset < data.len() && data[offset] == 0 {
+            // skip the null bytes that fill up the chunk to the next 32-bit boundary.
+            // Anything after that boundary belongs to the next chunk.
+            while offset < data.len() && offset % 4 != 0 && data[offset] == 0 {
                 offset += 1;
             }
         }
